@@ -14,14 +14,15 @@
 
    Total observer: never blocks; a false clause adds <<trace, index, clause>> to viol,
    printed at the end of the file. `drift` counts operations on which the real code did
-   something else than the implementation-shaped model predicted (cases emitted by the
+   something else than the implementation-shaped model predicted; `vdrift` counts requests whose
+   version is not the one admin.go in /repo selects for the configured release (cases emitted by the
    reference variants of spec/Admin.tla only; soft, never a verdict). *)
 EXTENDS AdminOracle, TLC, Json
 
 Trace == ndJsonDeserialize("trace.ndjson")
 
-VARIABLES l, viol, cur, att, reqs, tail, nops, nreq, ndrift
-vars == <<l, viol, cur, att, reqs, tail, nops, nreq, ndrift>>
+VARIABLES l, viol, cur, att, reqs, tail, nops, nreq, ndrift, nvdrift
+vars == <<l, viol, cur, att, reqs, tail, nops, nreq, ndrift, nvdrift>>
 
 E == Trace[l]
 Tag(S) == {<<E.t, E.i, c>> : c \in S}
@@ -30,14 +31,14 @@ ToSet(s) == {s[k] : k \in DOMAIN s}
 PF(p) == [x \in {p[k][1] : k \in DOMAIN p} |-> (CHOOSE q \in ToSet(p) : q[1] = x)[2]]
 
 CtlCase(c) == [op |-> c.op, kv |-> c.kv, max |-> c.max, init |-> c.init, pre |-> c.pre, script |-> c.script]
-SpreadCase(c) == [op |-> c.op, kv |-> c.kv, own |-> PF(c.own), itemv |-> PF(c.itemv), bfault |-> PF(c.bfault)]
+SpreadCase(c) == [op |-> c.op, kv |-> c.kv, own |-> PF(c.own), itemv |-> PF(c.itemv), bfault |-> PF(c.bfault), all |-> c.all, gerr |-> c.gerr]
 
-Init == l = 1 /\ viol = {} /\ cur = [fam |-> "-"] /\ att = <<>> /\ reqs = <<>> /\ tail = <<>> /\ nops = 0 /\ nreq = 0 /\ ndrift = 0
+Init == l = 1 /\ viol = {} /\ cur = [fam |-> "-"] /\ att = <<>> /\ reqs = <<>> /\ tail = <<>> /\ nops = 0 /\ nreq = 0 /\ ndrift = 0 /\ nvdrift = 0
 
 TReset ==
   /\ E.ev = "reset"
   /\ cur' = E /\ att' = <<>> /\ reqs' = <<>> /\ tail' = <<>>
-  /\ UNCHANGED <<viol, nops, nreq, ndrift>>
+  /\ UNCHANGED <<viol, nops, nreq, ndrift, nvdrift>>
 
 TReq ==
   /\ E.ev = "req"
@@ -46,6 +47,7 @@ TReq ==
      IN /\ att' = att2
         /\ viol' = viol \cup (IF cur.fam = "ctl" THEN Tag(CtlReqViol(CtlCase(cur), att2)) ELSE Tag({"request_matches_operation"}))
   /\ nreq' = nreq + 1 /\ tail' = <<>>
+  /\ nvdrift' = nvdrift + (IF E.v = ExpectedVer(cur.op, cur.kv) THEN 0 ELSE 1)
   /\ UNCHANGED <<cur, reqs, nops, ndrift>>
 
 TSReq ==
@@ -55,13 +57,14 @@ TSReq ==
      IN /\ reqs' = reqs2
         /\ viol' = viol \cup (IF cur.fam = "spread" THEN Tag(SpreadReqViol(SpreadCase(cur), reqs2)) ELSE Tag({"request_matches_operation"}))
   /\ nreq' = nreq + 1 /\ tail' = <<>>
+  /\ nvdrift' = nvdrift + (IF E.v = ExpectedVer(cur.op, cur.kv) THEN 0 ELSE 1)
   /\ UNCHANGED <<cur, att, nops, ndrift>>
 
 \* a metadata answer: remember which controller it named (NoCtl = -1: nobody) since the last request
 TInfo ==
   /\ E.ev \in {"meta", "lookup"}
   /\ tail' = (IF E.ev = "meta" THEN Append(tail, E.named) ELSE tail)
-  /\ UNCHANGED <<viol, cur, att, reqs, nops, nreq, ndrift>>
+  /\ UNCHANGED <<viol, cur, att, reqs, nops, nreq, ndrift, nvdrift>>
 
 TRet ==
   /\ E.ev = "ret"
@@ -71,13 +74,13 @@ TRet ==
      ELSE /\ viol' = viol \cup Tag(SpreadRetViol(SpreadCase(cur), reqs, [cls |-> E.cls, code |-> E.code, reported |-> ToSet(E.reported), filed |-> ToSet(E.filed)]))
           /\ ndrift' = ndrift
   /\ nops' = nops + 1
-  /\ UNCHANGED <<cur, att, reqs, tail, nreq>>
+  /\ UNCHANGED <<cur, att, reqs, tail, nreq, nvdrift>>
 
 TEnd ==
   /\ E.ev = "end"
   /\ PrintT(<<"VIOL", ToJson(viol)>>)
-  /\ PrintT(<<"STATS", ToJson([ops |-> nops, reqs |-> nreq, drift |-> ndrift])>>)
-  /\ UNCHANGED <<viol, cur, att, reqs, tail, nops, nreq, ndrift>>
+  /\ PrintT(<<"STATS", ToJson([ops |-> nops, reqs |-> nreq, drift |-> ndrift, vdrift |-> nvdrift])>>)
+  /\ UNCHANGED <<viol, cur, att, reqs, tail, nops, nreq, ndrift, nvdrift>>
 
 Next == /\ l <= Len(Trace)
         /\ l' = l + 1
